@@ -975,7 +975,10 @@ func (s *Session) input(seg *segment) error {
 				panic(fmt.Sprintf("%v cipher block user name is not set", seg))
 			}
 			if prevUserName != nextUserName {
-				panic(fmt.Sprintf("%v cipher block user name %q is different from %v cipher block user name %q", s, prevUserName, seg, nextUserName))
+				// The segment was authenticated by a user that doesn't own this
+				// session. It must not affect the session or crash the process.
+				log.Debugf("%v ignored %v: cipher block user name %q is different from session user name %q", s, seg, nextUserName, prevUserName)
+				return nil
 			}
 		}
 
